@@ -372,3 +372,48 @@ func zzC01_exif_png() {
 	_, _ = DecodePng(zzReaderOf(b))
 	zzReached("end")
 }
+
+// values that end exactly at the end of the 4096-byte read buffer: the file goes on, but a slice returned by a
+// look-ahead of exactly the declared value size has no spare capacity there, so a parser that slices past the size it
+// asked for panics. IFD0 -> ExifIFD / GPS IFD at 3990 with one entry of the k-th dispatched id, type in the value
+// classes, count 0..4, the value placed so that it ends at byte 4096; 64 arbitrary bytes around the boundary.
+func zzBufEnd(be bool, link uint16, ids []uint16, k int) []byte {
+	const dir = 3990
+	t := zzNewTiff(4096+40, be, 8)
+	t.dir(8, 1, 0)
+	t.ent(8, 0, link, 4, 1, dir)
+	t.dir(dir, 1, 0)
+	t.bytes(4096-56, zzBytes("v", 64))
+	id, typ, cnt := zzU16("id"), zzU16("typ"), zzU32("cnt")
+	zzPickID(id, ids, k)
+	if ids[k] != 0 {
+		id = ids[k]
+	}
+	zzAssume(typ == 1 || typ == 2 || typ == 3 || typ == 4 || typ == 5 || typ == 7 || typ == 10)
+	typ = uint16(zzConc(uint64(typ), 7))
+	zzAssume(cnt <= 4)
+	cnt = uint32(zzConc(uint64(cnt), 5))
+	size := uint32([]int{0, 1, 1, 2, 4, 8, 1, 1, 2, 4, 8, 4, 8, 4}[typ]) * cnt
+	off := uint32(4096) - size
+	if size <= 4 {
+		off = 0 // embedded: the slot is arbitrary
+		off = zzU32("slot")
+	}
+	t.ent(dir, 0, id, typ, cnt, off)
+	return t.b
+}
+
+func zzC01_exif_bufend_N() int { return 76 }
+func zzC01_exif_bufend() {
+	p := zzPart()
+	be := p%2 == 1
+	p /= 2
+	var b []byte
+	if p < len(zzExifIds) {
+		b = zzBufEnd(be, 0x8769, zzExifIds, p)
+	} else {
+		b = zzBufEnd(be, 0x8825, zzGpsIds, p-len(zzExifIds))
+	}
+	_, _ = DecodeTiff(zzReaderOf(b))
+	zzReached("end")
+}
